@@ -20,6 +20,11 @@ RULE = (
     "{positivity, fix_potential_baseline(+factor), identical_slices, apply_fov_mask} x mask {none, binary, fractional} x {float32 via .obj, float64 via apply_hard_constraints}), "
     "dip (ObjectDIP.obj on the output of a one-layer network with hostile weights, complex / real-valued pure phase / potential), tomo (tomography ObjectVoxelwise positivity/shrinkage), orth (1-5 modes, pairwise correlation 0..0.99, intensity ratios 1e-4..1e4, complex128 and complex64, direct call and "
     "probe_model.probe), weights (from_array / from_params + set_initial_probe with requested weights 1e-3..1 and mean intensities 1e-2..1e8, read through initial_probe) and "
+    "probe_hist (one ProbePixelated model, 6-12 steps under torch.no_grad() and with grad: read / public probe setter with another stack / reset() / set_initial_probe / optimizer step / toggling "
+    "orthogonalize_probe and center_probe, every read judged against the *current* raw stack: orthogonal, same intensity multiset, descending, inside its span), "
+    "obj_hist (one multi-slice ObjectDIP or ObjectPixelated, 5-9 steps: public calls that raise and are caught -- pretrain() without optimizer / with a loss callable raising at the k-th call / bad target / "
+    "unknown optimizer or loss name, invalid constraint key, mask, model_input, slice_thicknesses, obj_type, optimizer -- and successful pretrain / reset / optimizer step / forward / constraint toggles, "
+    ".obj judged after every step), "
     "insitu (reconstruct() on a simulated scene started from hostile raw object / correlated modes with Adam/SGD learning rates 0.1..100, batches, 1-3 slices, 1-4 modes); "
     "non-trivial = the raw tensor violates the constraint before projection (max|obj|>1, |obj|!=1, min V<0, slices differ, modes correlated >= 0.5, weights/intensity differ from requested); "
     "distinct = (kind, type, constraint-dict key, mask kind, slices, modes, precision)"
@@ -31,12 +36,15 @@ ASSUMPTIONS = [
     "with identical_slices only slice equality and amplitude <= 1 are judged (property: slice tying is only claimed to tie slices); smoothing filters are never enabled",
     "with apply_fov_mask the mask is a declared attenuation in [0,1]: amplitude <= 1 everywhere and = 1 where mask = 1 (pure phase); idempotence is judged for binary masks only (the code applies the mask twice)",
     "idempotence is an amplitude statement and is judged for complex and pure-phase objects",
+    "history cases: a call that is expected to raise is caught by the harness like an interactive caller would; the constraint dictionary read back from the model after the step (not the one requested) decides what is judged; "
+    "reads of probe_model.probe with orthogonalize_probe off or center_probe on are not judged (the property is about the orthogonalisation's result; per-mode centring shifts do not keep modes orthogonal)",
 ]
 BUDGET = {"quick": {"soft_s": 110, "workers": 14}, "thorough": {"soft_s": 800, "workers": 14}}
 MIN_EVALUATIONS = {"quick": 3000, "thorough": 30000}
 REQUIRED_COUNTERS = [
     "eval:complex_amplitude_above_one", "eval:pure_phase_amplitude_not_one", "eval:potential_negative_under_positivity", "eval:slices_not_identical", "eval:constraint_not_idempotent",
     "eval:modes_not_orthogonal", "eval:mode_intensities_changed", "eval:modes_not_descending", "eval:initial_probe_total_intensity", "eval:initial_probe_weights", "insitu_cases_completed",
+    "history_cases_completed:probe", "history_cases_completed:object", "history_errors_caught",
 ]
 
 TOL32, TOL64 = 2e-5, 1e-12
@@ -44,9 +52,10 @@ TOL32, TOL64 = 2e-5, 1e-12
 
 def plan(tier, seed):
     q = tier == "quick"
-    n = {"insitu": 126 if q else 1120, "dip": 200 if q else 4000, "obj": 3000 if q else 90000, "tomo": 200 if q else 6000, "orth": 1200 if q else 36000, "weights": 600 if q else 18000}
+    n = {"insitu": 126 if q else 1120, "dip": 200 if q else 4000, "obj": 3000 if q else 90000, "tomo": 200 if q else 6000, "orth": 1200 if q else 36000, "weights": 600 if q else 18000,
+         "probe_hist": 500 if q else 12000, "obj_hist": 400 if q else 9000}
     rest = []
-    for kind in ("obj", "dip", "tomo", "orth", "weights"):
+    for kind in ("obj", "dip", "tomo", "orth", "weights", "probe_hist", "obj_hist"):
         rest += [{"kind": kind, "i": i} for i in range(n[kind])]
     # cheap direct cases first (milliseconds each), the in-situ reconstructions last, spread evenly over the workers (round-robin sharding)
     order = np.random.default_rng([seed, 10, 4242]).permutation(len(rest))
@@ -85,7 +94,7 @@ def _mask_real(mask):
     return (m.real if m.is_complex() else m).double()
 
 
-def judge_object(ctx, model, raw, mask, out, where, idempotence=True):
+def judge_object(ctx, model, raw, mask, out, where, idempotence=True, **extra):
     """Postconditions of ObjectConstraints.apply_hard_constraints(raw, mask) -> out for model's declared type / constraint dict."""
     import torch
 
@@ -106,7 +115,7 @@ def judge_object(ctx, model, raw, mask, out, where, idempotence=True):
         tol = TOL32 if single else TOL64
         prec = "single" if single else "double"
         mk = "none" if mreal is None else ("binary" if bool(((mreal == 0) | (mreal == 1)).all()) else "fractional")
-        f = dict(where=where, obj_type=ot, precision=prec, mask=mk, tied=tied, baseline=bool(c.get("fix_potential_baseline")))
+        f = dict(where=where, obj_type=ot, precision=prec, mask=mk, tied=tied, baseline=bool(c.get("fix_potential_baseline")), **extra)
         if not ctx.check(tuple(out.shape) == tuple(raw.shape) and _finite_t(out), "constrained_object_malformed", "shape %s -> %s, finite=%s" % (tuple(raw.shape), tuple(out.shape), _finite_t(out)), **f):
             return None
         nontrivial = False
@@ -148,7 +157,7 @@ def judge_object(ctx, model, raw, mask, out, where, idempotence=True):
         return dict(f, nontrivial=nontrivial)
 
 
-def judge_orth(ctx, inp, out, where):
+def judge_orth(ctx, inp, out, where, **extra):
     """Postconditions of mixed-state orthogonalisation inp -> out."""
     import torch
 
@@ -165,12 +174,18 @@ def judge_orth(ctx, inp, out, where):
             return None
         single = out.dtype == torch.complex64
         prec = "single" if single else "double"
-        f = dict(where=where, precision=prec, modes=M)
+        f = dict(where=where, precision=prec, modes=M, **extra)
         if not ctx.check(tuple(out.shape) == tuple(inp.shape) and out.dtype == inp.dtype and _finite_t(out), "orthogonalised_probe_malformed", "%s %s -> %s %s" % (tuple(inp.shape), inp.dtype, tuple(out.shape), out.dtype), **f):
             return None
         o = _np(out).astype(np.complex128).reshape(M, -1)
         n2 = (np.abs(o) ** 2).sum(1)
         i_in = (np.abs(x.astype(np.complex128)) ** 2).sum((1, 2))
+        # the returned modes are an orthogonalisation of *this* stack: every mode lies in the span of the raw modes
+        if o.shape[1] > M and np.all(n2 > 0):
+            q, _r = np.linalg.qr(x.astype(np.complex128).reshape(M, -1).T)
+            resid = o.T - q @ (q.conj().T @ o.T)
+            rel = float(np.max(np.sqrt((np.abs(resid) ** 2).sum(0) / n2)))
+            ctx.close(rel, 1e-3 if single else 1e-9, "modes_outside_span_of_raw_probe", lambda: "max_m |u_m - P_span(raw) u_m| / |u_m| (%d modes, input max overlap %.3f)" % (M, corr), track=prec, **f)
         if M > 1:
             n = np.sqrt(n2)
             G = np.abs(o.conj() @ o.T) / np.outer(n, n)
@@ -525,12 +540,251 @@ def _run_dip(spec, idx, ctx):
     ctx.observe(obj_type=ot, model_dtype=str(dt), shape=[S, H, W], constraints=cons, mask=mkind, raw_absmax=float(raw.abs().max()))
 
 
-RUN = {"obj": _run_obj, "dip": _run_dip, "tomo": _run_tomo, "orth": _run_orth, "weights": _run_weights, "insitu": _run_insitu}
+# ------------------------------------------------------------------------------------------------
+# histories on one model (state that depends on earlier reads, setters and failed calls)
+
+
+def _run_probe_hist(spec, idx, ctx):
+    """read / set / read histories on one ProbePixelated: every read must describe the *current* raw stack."""
+    import contextlib
+
+    st = ctx.state
+    torch, ins = st["torch"], st["insitu"]
+    rng = ctx.rng(idx)
+    i = spec["i"]
+    M = 1 + i % 5
+    h, w = int(rng.integers(4, 21)), int(rng.integers(4, 21))
+    nograd = (i // 5) % 3 != 2  # two thirds of the cases read the way logging / plotting / saving code does
+    corrs = [0.0, 0.3, 0.5, 0.9, 0.99, 0.7]
+
+    def stack():
+        c = float(corrs[int(rng.integers(len(corrs)))]) if M > 1 else 0.0
+        return (ins.correlated_modes(rng, M, (h, w), c, ratios_decades=2.0) * 10.0 ** rng.uniform(-1.5, 1.5)).astype(np.complex64)
+
+    pm = st["pm"].ProbePixelated.from_array(stack(), rng=int(rng.integers(1 << 30)))
+    rs = np.array([0.1, 0.1])
+    steps, judged, nontriv = [], 0, False
+    mode = torch.no_grad() if nograd else contextlib.nullcontext()
+    last_write = "from_array"
+
+    def read():
+        nonlocal judged, nontriv
+        c = pm.constraints
+        out = pm.probe
+        raw = pm._probe.detach().clone()
+        if not c.get("orthogonalize_probe", True) or c.get("center_probe"):
+            ctx.count("probe_read_not_judged:orth_off_or_centred")
+            return
+        r = judge_orth(ctx, raw, out.detach(), where="history", grad="no_grad" if not torch.is_grad_enabled() else "grad", after=last_write)
+        if r is not None:
+            judged += 1
+            nontriv = nontriv or bool(r["nontrivial"])
+
+    n_steps = int(rng.integers(6, 13))
+    with mode:
+        read()
+        steps.append("read")
+        for _ in range(n_steps):
+            op = ["set", "set", "set", "reset", "init", "step", "toggle_orth", "toggle_center", "flip_grad"][int(rng.integers(9))]
+            if op == "set":
+                new = stack()
+                pm.probe = new if rng.random() < 0.5 else torch.tensor(new)
+                last_write = "probe_setter"
+            elif op == "reset":
+                pm.reset()
+                last_write = "reset"
+            elif op == "init":
+                pm.set_initial_probe((h, w), rs, float(10.0 ** rng.uniform(0, 6)))
+                last_write = "set_initial_probe"
+            elif op == "step":
+                with torch.enable_grad():
+                    pm.set_optimizer({"type": "sgd", "lr": float(10.0 ** rng.uniform(-3, -1))})  # (binds to the current parameter)
+                    pm.zero_optimizer_grad()
+                    tgt = torch.tensor(stack())
+                    loss = (pm.probe - tgt).abs().square().sum()
+                    loss.backward()
+                    pm.step_optimizer()
+                last_write = "optimizer_step"
+            elif op == "toggle_orth":
+                pm.add_constraint("orthogonalize_probe", not pm.constraints["orthogonalize_probe"])
+            elif op == "toggle_center":
+                pm.add_constraint("center_probe", not pm.constraints["center_probe"])
+            else:
+                # leave / enter no_grad for the following reads (same model, same state)
+                torch.set_grad_enabled(not torch.is_grad_enabled())
+            steps.append(op)
+            read()
+            if rng.random() < 0.3:
+                read()  # an immediate second read
+        # finish with the constraints on: the last read is always judged
+        pm.add_constraint("orthogonalize_probe", True)
+        pm.add_constraint("center_probe", False)
+        read()
+    torch.set_grad_enabled(True)
+    ctx.count("history_cases_completed:probe")
+    ctx.nontrivial(("probe_hist", M, "nograd" if nograd else "grad", tuple(sorted(set(steps)))), judged >= 2 and "set" in steps and nontriv)
+    ctx.observe(modes=M, roi=[h, w], start_no_grad=nograd, steps=steps, reads_judged=judged)
+
+
+class _Boom(RuntimeError):
+    pass
+
+
+def _affine_model(torch, dt, w, b):
+    import torch.nn as nn
+
+    class Affine(nn.Module):
+        def __init__(self):
+            super().__init__()
+            self.dtype = dt
+            self.w = nn.Parameter(w)
+            self.b = nn.Parameter(b)
+
+        def forward(self, x):
+            return x * self.w + self.b
+
+    return Affine()
+
+
+def _run_obj_hist(spec, idx, ctx):
+    """after-error and after-success histories on one object model: .obj judged after every step."""
+    st = ctx.state
+    torch, ins = st["torch"], st["insitu"]
+    rng = ctx.rng(idx)
+    i = spec["i"]
+    dip = i % 4 != 3
+    S = int(rng.integers(2, 5)) if i % 8 else 1
+    H, W = int(rng.integers(3, 14)), int(rng.integers(3, 14))
+    thick = float(rng.uniform(1, 20)) if S > 1 else None
+    if dip:
+        ot, cplx = [("complex", True), ("potential", False), ("pure_phase", True), ("pure_phase", False)][(i // 4) % 4]
+        dt = torch.complex64 if cplx else torch.float32
+        wv = ins.hostile_values(rng, (1, S, H, W), cplx, lo=-2.0, hi=2.0)
+        bv = ins.hostile_values(rng, (1, S, H, W), cplx, lo=-2.0, hi=2.0) * float(rng.random() < 0.5)
+        inp = rng.normal(size=(S, H, W)) + (1j * rng.normal(size=(S, H, W)) if cplx else 0.0)
+        m = st["om"].ObjectDIP.from_model(_affine_model(torch, dt, torch.tensor(wv).to(dt), torch.tensor(bv).to(dt)), torch.tensor(inp).to(dt), num_slices=S, slice_thicknesses=thick,
+                                          input_noise_std=float(rng.choice([0.0, 0.025])), obj_type=ot, rng=int(rng.integers(1 << 30)))
+    else:
+        ot = ["complex", "potential", "pure_phase"][(i // 4) % 3]
+        cplx = ot != "potential"
+        dt = torch.complex64 if cplx else torch.float32
+        raw0 = ins.hostile_values(rng, (S, H, W), cplx, lo=-3.0, hi=3.0)
+        m = st["om"].ObjectPixelated.from_array(raw0.astype(np.complex64 if cplx else np.float32), slice_thicknesses=thick, obj_type=ot, rng=int(rng.integers(1 << 30)))
+        m.reset()
+    cons = {"identical_slices": bool(rng.random() < 0.75)}
+    if rng.random() < 0.4:
+        mask = (rng.random((H, W)) > 0.4).astype(np.float32) if rng.random() < 0.5 else np.clip(rng.random((H, W)) * 1.5, 0, 1).astype(np.float32)
+        m.mask = mask
+        cons["apply_fov_mask"] = True
+    m.constraints = cons
+    steps, raised, judged, nontriv = [], 0, 0, False
+
+    def target():
+        t = rng.normal(size=(S, H, W)) + (1j * rng.normal(size=(S, H, W)) if cplx else 0.0)
+        return torch.tensor(t).to(dt)
+
+    def read(after, err):
+        nonlocal judged, nontriv
+        with torch.no_grad():
+            raw = m._obj.detach()
+            out = m.obj
+        if dip and ot == "pure_phase" and not cplx:
+            raw = torch.exp(1j * raw)
+        r = judge_object(ctx, m, raw, m.mask if m.mask.numel() else None, out, where="history", after=after, after_error=err, model_kind="dip" if dip else "pixelated")
+        if r is not None:
+            judged += 1
+            nontriv = nontriv or bool(r["nontrivial"])
+
+    def failing_loss(k):
+        calls = {"n": 0}
+
+        def loss(pred, tgt):
+            calls["n"] += 1
+            if calls["n"] >= k:
+                raise _Boom("interrupted")
+            return (pred - tgt).abs().square().mean()
+
+        return loss
+
+    adam = lambda: {"type": "adam", "lr": float(10.0 ** rng.uniform(-4, -2))}  # noqa: E731
+    # every entry: name -> (callable, expected to raise)
+    common = {
+        "constraints_bad_key": (lambda: setattr(m, "constraints", {"identical_slices": m.constraints["identical_slices"], "no_such_constraint": 1}), True),
+        "add_constraint_bad_key": (lambda: m.add_constraint("no_such_constraint", 1), True),
+        "mask_bad_ndim": (lambda: setattr(m, "mask", np.ones((2, 2, H, W), np.float32)), True),
+        "obj_type_bad": (lambda: setattr(m, "obj_type", "no_such_type"), True),
+        "optimizer_bad_type": (lambda: m.set_optimizer({"type": "no_such_optimizer", "lr": 0.1}), True),
+        "toggle_identical": (lambda: m.add_constraint("identical_slices", not m.constraints["identical_slices"]), False),
+        "forward": (lambda: m.forward(torch.tensor(rng.integers(0, H * W, size=(2, 3, 3)))), False),
+        "reset": (lambda: m.reset(), False),
+    }
+    if S > 1:
+        common["slice_thicknesses_bad"] = (lambda: setattr(m, "slice_thicknesses", [1.0] * (S + 2)), True)
+    if dip:
+        def no_opt():
+            m.remove_optimizer()
+            m.pretrain(pretrain_target=target(), num_iters=2, show=False)
+
+        ops = dict(common)
+        ops.update({
+            "pretrain_without_optimizer": (no_opt, True),
+            "pretrain_loss_raises": (lambda: m.pretrain(pretrain_target=target(), num_iters=4, optimizer_params=adam(), loss_fn=failing_loss(int(rng.integers(1, 4))), apply_constraints=bool(rng.random() < 0.5), show=False), True),
+            "pretrain_bad_target_shape": (lambda: m.pretrain(pretrain_target=torch.zeros((S + 1, H, W), dtype=dt), num_iters=1, optimizer_params=adam(), show=False), True),
+            "pretrain_unknown_optimizer": (lambda: m.pretrain(pretrain_target=target(), num_iters=1, optimizer_params={"type": "no_such_optimizer", "lr": 0.1}, show=False), True),
+            "pretrain_unknown_loss": (lambda: m.pretrain(pretrain_target=target(), num_iters=1, optimizer_params=adam(), loss_fn="no_such_loss", show=False), True),
+            "model_input_bad_slices": (lambda: setattr(m, "model_input", torch.zeros((S + 1, H, W), dtype=dt)), True),
+            # (apply_constraints on a complex-valued pure-phase network compares a real angle with a complex target and raises in the
+            #  library's complex loss on the unchanged tree: not a C10 matter, not generated)
+            "pretrain_ok": (lambda: m.pretrain(pretrain_target=target(), num_iters=int(rng.integers(1, 4)), optimizer_params=adam(), apply_constraints=bool(rng.random() < 0.5) and not (ot == "pure_phase" and cplx), show=False), False),
+        })
+        weights = {"pretrain_without_optimizer": 3, "pretrain_loss_raises": 3, "pretrain_ok": 3}
+    else:
+        def opt_step():
+            m.set_optimizer({"type": "sgd", "lr": float(10.0 ** rng.uniform(-2, 1))})
+            m.zero_optimizer_grad()
+            loss = (m.obj - target()).abs().square().sum()
+            loss.backward()
+            m.step_optimizer()
+
+        ops = dict(common)
+        ops["optimizer_step"] = (opt_step, False)
+        weights = {"optimizer_step": 3}
+    names = sorted(ops)
+    pw = np.array([weights.get(n, 1) for n in names], dtype=float)
+    pw /= pw.sum()
+    read("construction", False)
+    for _ in range(int(rng.integers(5, 10))):
+        name = names[int(rng.choice(len(names), p=pw))]
+        fn, should_raise = ops[name]
+        err = False
+        if should_raise:
+            try:
+                fn()
+            except Exception:  # noqa: BLE001  (the interactive caller catches and carries on with the same model)
+                err = True
+                raised += 1
+            if not err:
+                ctx.count("history_expected_error_not_raised:" + name)
+        else:
+            fn()
+        steps.append(name)
+        # whatever happened, the model must keep delivering what its constraint dictionary declares
+        if not m.constraints.get("identical_slices") and rng.random() < 0.5:
+            m.add_constraint("identical_slices", True)
+        read(name, err)
+    ctx.count("history_cases_completed:object")
+    ctx.count("history_errors_caught", raised)
+    ctx.nontrivial(("obj_hist", "dip" if dip else "pixelated", ot, min(S, 3), tuple(sorted(set(steps)))[:6]), raised >= 1 and judged >= 3 and nontriv)
+    ctx.observe(model="ObjectDIP" if dip else "ObjectPixelated", obj_type=ot, shape=[S, H, W], constraints=dict((k, m.constraints[k]) for k in ("identical_slices", "apply_fov_mask")), steps=steps, errors_caught=raised, reads_judged=judged)
+
+
+RUN = {"obj": _run_obj, "dip": _run_dip, "tomo": _run_tomo, "orth": _run_orth, "weights": _run_weights, "insitu": _run_insitu, "probe_hist": _run_probe_hist, "obj_hist": _run_obj_hist}
 
 
 def run_case(spec, idx, ctx):
     ctx.state["live"] = None
     ctx.state["busy"] = False
+    ctx.state["torch"].set_grad_enabled(True)
     with np.errstate(all="ignore"):
         RUN[spec["kind"]](spec, idx, ctx)
 
